@@ -20,8 +20,39 @@ Record crash_obs := { writes_before : N; seen : observation; seen_post : observa
 
 Inductive outcome := OutOk | OutErr (e : err).
 
+(* round 3: a history step is an operation or a LOAD through the PulseStorage (`storage[i]`): the identifier and,
+   recursively, everything it refers to that is not cached yet is read from the backend; each gets a NEW object
+   (tag = base + identifier, a convention of the harness) in the cache.  The theorems quantify over every cache, so the
+   model needs no new operation: loads only move the correspondence check to another cache. *)
+Inductive hop := HOp (o : op) | HLoad (i : id) (base : N).
+
+Fixpoint load_cache (fuel : nat) (s : store) (base : N) (c : cache) (i : id) : cache :=
+  match fuel with
+  | O => c
+  | S f =>
+      if has i c then c else
+      match lookup i s with
+      | Some (Full _ refs) => aset i (base + i) (fold_left (fun c' r => load_cache f s base c' r) refs c)
+      | _ => c
+      end
+  end.
+
+Definition op_state (b : backend) (d : disk) (c : cache) (o : op) : disk * cache :=
+  match plan_of current b d c o with
+  | PErr _ => (d, c)
+  | PNoop c' => (d, c')
+  | PSteps s c' => (run s d, c')
+  end.
+
+Fixpoint run_hops (b : backend) (d : disk) (c : cache) (l : list hop) : disk * cache :=
+  match l with
+  | [] => (d, c)
+  | HOp o :: r => let '(d', c') := op_state b d c o in run_hops b d' c' r
+  | HLoad i base :: r => run_hops b d (load_cache (S (length (view d))) (view d) base c i) r
+  end.
+
 Inductive case :=
-| CStore (b : backend) (history : list op) (final : op)
+| CStore (b : backend) (history : list hop) (final : op)
          (before : observation) (nofault : outcome) (after : observation) (crashes : list crash_obs)
          (post : option op) (after_post : observation)
          (* kill runs: the process stopped before position k (k = 0, 1, ...; more positions than `crashes`: also
@@ -67,7 +98,7 @@ Definition check_corr (c : case) : bool :=
   match c with
   | CCrash => false
   | CStore b hist fin before nofault after crashes post after_post kills =>
-      let '(d0, c0) := run_ops current b empty_disk [] hist in
+      let '(d0, c0) := run_hops b empty_disk [] hist in
       let pl := plan_of current b d0 c0 fin in
       vis_eqb (vis_of_disk d0) (vis_of_obs before)
       && (match pl, nofault with
@@ -178,16 +209,14 @@ Definition tx_guard_op (b : backend) (d : disk) (c : cache) (o : op) : bool :=
   end.
 
 (* (dup guard, cycle guard, buffer guard) over a failure-free history *)
-Fixpoint hist_guards (b : backend) (d : disk) (c : cache) (l : list op) : bool * bool * bool :=
+Fixpoint hist_guards (b : backend) (d : disk) (c : cache) (l : list hop) : bool * bool * bool :=
   match l with
   | [] => (true, true, true)
-  | o :: r =>
-      let '(g1, g2, g3) := match plan_of current b d c o with
-                           | PErr _ => hist_guards b d c r
-                           | PNoop c' => hist_guards b d c' r
-                           | PSteps s c' => hist_guards b (run s d) c' r
-                           end in
+  | HOp o :: r =>
+      let '(d', c') := op_state b d c o in
+      let '(g1, g2, g3) := hist_guards b d' c' r in
       (dup_guard_op o && g1, guard_C11_cycle d c o && g2, tx_guard_op b d c o && g3)
+  | HLoad i base :: r => hist_guards b d (load_cache (S (length (view d))) (view d) base c i) r
   end.
 
 (* A rejected case belongs to a known finding iff the implementation behaved exactly as the model predicts and some
@@ -198,7 +227,7 @@ Definition finding_of (c : case) : N :=
   | CCrash => 0
   | CStore b hist fin before nofault after crashes post after_post kills =>
       if negb (check_corr c) then 0 else
-      let '(d0, c0) := run_ops current b empty_disk [] hist in
+      let '(d0, c0) := run_hops b empty_disk [] hist in
       let pl := plan_of current b d0 c0 fin in
       let states := prefix_states (steps_of pl) d0 in
       let c1 := match pl with PSteps _ c' | PNoop c' => c' | PErr _ => c0 end in
